@@ -74,6 +74,8 @@ def run(name, checks):
             print(c, "exit", rc, *lines[:3], sep="\n  ")
     finally:
         sh("git checkout -- .", cwd=REPO)
+        # the generated Coq files were regenerated from the changed tree: bring them back to the real one
+        sh("python3 -c \"import sys; sys.path.insert(0,'tools'); from svlib import *; build_harness(); import gentables; gentables.regenerate()\"", cwd=VERIF)
     meta_p = os.path.join(d, "meta.json")
     meta = json.load(open(meta_p)) if os.path.exists(meta_p) else {}
     meta.setdefault("check_results", {}).update(results)
